@@ -324,6 +324,8 @@ PROBES = {
         'family': 'login',
         'body': f'    {p}Ena eone;\n    if (eone == A) {{\n        IpAddress vipaddress;\n    }}\n    else if (eone == B) {{\n        u16 xshort;\n    }}\n    else {{\n        u32 xint;\n    }}\n    u8 xbyte;',
         'helpers': [(f'{p}Ena', f'enum {p}Ena : u8 {{\n    A = 0;\n    B = 1;\n    C = 2;\n}}')]},
+    'self-size-in-constant-sized-container': lambda p: {
+        'body': '    u32 vsize = self.size;\n    u32 xint;\n    u8 xbyte;', 'helpers': []},
     'field-names-trailing-digits': lambda p: {
         'body': '    u32 item1;\n    f32 item2;', 'helpers': []},
     'flag-ifvar-declared-in-branch': lambda p: {
@@ -402,10 +404,10 @@ MATRIX_SCALARS = ['u8', 'u16', 'u32', 'u64', 'i32', 'f32', 'Bool', 'Bool32', 'Gu
                   'enum', 'upcast-enum', 'flag', 'const', 'struct-fixed', 'struct-var']
 MATRIX_ARRAYS = [(k, e) for e in ('u8', 'u16', 'u32', 'u64', 'Guid', 'PackedGuid', 'CString', 'Spell', 'struct-fixed', 'struct-var')
                  for k in ('fixed', 'var8', 'var32', 'endless')]
-MATRIX_CONTEXTS = ['top', 'enum-if', 'enum-neq', 'enum-elif-else', 'flag-if', 'struct-in-array', 'struct-member', 'optional']
+MATRIX_CONTEXTS = ['top', 'enum-if', 'enum-neq', 'enum-elif-else', 'flag-if', 'struct-in-array', 'struct-member', 'optional', 'self-size-top', 'self-size-struct']
 LOGIN_SCALARS = ['u8', 'u16', 'u32', 'u64', 'i32', 'Bool', 'CString', 'String', 'Population', 'IpAddress', 'enum', 'upcast-enum', 'flag', 'const', 'struct-fixed', 'struct-var']
 LOGIN_ARRAYS = [(k, e) for e in ('u8', 'struct-fixed', 'struct-var') for k in ('fixed', 'var8', 'var16', 'var32')]
-LOGIN_CONTEXTS = ['top', 'enum-if', 'enum-neq', 'enum-elif-else', 'flag-if', 'struct-in-array']
+LOGIN_CONTEXTS = ['top', 'enum-if', 'enum-neq', 'enum-elif-else', 'flag-if', 'struct-in-array', 'self-size-top', 'self-size-struct']
 
 
 ENUM_CTX = ('enum-if', 'enum-neq', 'enum-elif-else')
@@ -501,6 +503,17 @@ def _wrap(p, ctx, members, tail=True):
             return f'    {name} {p.field("st" + name)};{t}'
         cnt = p.field('amountu_of')
         return f'    u8 {cnt};\n    {name}[{cnt}] {p.field("arr" + name)};{t}'
+    if ctx in ('self-size-top', 'self-size-struct') and 'self-size-in-constant-sized-container' in p.avoid:
+        # a container whose size is a constant gets no size() method, which the self.size writer calls (known class, own probe):
+        # keep these containers variable-sized
+        members = members + [f'    CString {p.field("vcstring")};']
+    if ctx == 'self-size-top':
+        return f'    {p.rng.choice(["u16", "u32"])} {p.field("vsize")} = self.size;\n' + '\n'.join(members) + t
+    if ctx == 'self-size-struct':
+        name = f'{p.p}St{p.fresh("")}'
+        p.helpers.append((name, f'struct {name} {{\n    {p.rng.choice(["u8", "u16", "u32"])} {p.field("vsize")} = self.size;\n' + '\n'.join(members) + '\n}'))
+        cnt = p.field('amountu_of')
+        return f'    u8 {cnt};\n    {name}[{cnt}] {p.field("arr" + name)};{t}'
     if ctx == 'optional':
         return f'    u32 {p.field("vu")};\n    optional {p.field("opt")} {{\n{_ind(chr(10).join(members))}\n    }}'
     raise ValueError(ctx)
@@ -518,7 +531,7 @@ def matrix_programs(prefix_of, family='world', chunk=4, avoid=()):
         items = [it for it in items if MATRIX_KNOWN.get((ctx, it if isinstance(it, str) else f'{it[1]}[{it[0]}]')) not in avoid or not avoid]
         if not items:
             return
-        p = Prog(prefix_of(i), random.Random(f'mx{family}{i}'), family=family)
+        p = Prog(prefix_of(i), random.Random(f'mx{family}{i}'), avoid=avoid, family=family)
         members = []
         for it in items:
             members.append(_member(p, it) if isinstance(it, str) else _array(p, *it))
